@@ -57,7 +57,7 @@ def enc(o):
         return 1 + 3 * int(o) + 1
     if type(o) is str and len(o) == 1 and ord(o) >= 97:
         return 1 + 3 * (ord(o) - 97)
-    raise BadValue(repr(o)[:60])
+    raise BadValue('not an input item: ' + repr(o)[:60])
 
 
 def encl(seq):
@@ -180,7 +180,7 @@ class C09(Property):
             'list-returning and the *_iter form are both run. Exhaustive: all lists up to length 6 (7 thorough) over '
             '{a, b, sep} for split/strip with every separator kind and maxsplit -1..5; lengths 0..8 x size -1..9 x '
             'count x fill for chunked/windowed; all lists up to 5 over 4 aliasing items for unique/redundant/'
-            'bucketize/partition; all chunk_ranges parameters up to 12/6/8; then seeded random larger cases with '
+            'bucketize/partition; all chunk_ranges parameters up to 13/7/9; then seeded random larger cases with '
             '1/1.0/True aliases. Non-trivial = valid parameters and an output with at least two groups/chunks/'
             'windows/ranges, or something actually stripped / deduplicated; distinct = distinct (op, kind, items, '
             'parameters).')
@@ -199,21 +199,22 @@ class C09(Property):
         rng = self.rng
         th = self.thorough
         yield from self.gen_chunk_window(th)
-        yield from self.gen_split_strip(7 if th else 6)
+        yield from self.gen_split_strip(8 if th else 7)
         yield from self.gen_group(th)
         yield from self.gen_ranges(th)
-        yield from self.gen_spec(7 if th else 5)
-        n_rand = 150000 if th else 12000
+        yield from self.gen_spec(7 if th else 6)
+        n_rand = 600000 if th else 40000
         for _ in range(n_rand):
-            yield self.random_case(rng, big=th and rng.random() < 0.2)
+            yield self.random_case(rng, big=rng.random() < (0.2 if th else 0.05))
 
     def deep_cases(self, budget_s):
+        """finite (about a minute): wider exhaustive scopes, then random cases with a larger share of big ones"""
         rng = self.rng
-        yield from self.gen_split_strip(7)
-        yield from self.gen_chunk_window(True)
         yield from self.gen_group(True)
         yield from self.gen_ranges(True)
-        while True:
+        yield from self.gen_chunk_window(True)
+        yield from self.gen_split_strip(7)
+        for _ in range(150000):
             yield self.random_case(rng, big=rng.random() < 0.3)
 
     def gen_chunk_window(self, th):
@@ -260,7 +261,7 @@ class C09(Property):
 
     def gen_group(self, th):
         items = (1, 2, 4, 6)       # 0, 0.0, 1, True(=1): two classes with aliases
-        maxlen = 6 if th else 5
+        maxlen = 7 if th else 5
         for n in range(0, maxlen + 1):
             for t in itertools.product(items, repeat=n):
                 xs = list(t)
@@ -276,7 +277,7 @@ class C09(Property):
                 yield {'op': 'partition', 'kind': kind, 'xs': xs, 'key': 'id'}
 
     def gen_ranges(self, th):
-        ms, mc, mo = (16, 7, 10) if th else (12, 6, 8)
+        ms, mc, mo = (20, 8, 12) if th else (13, 7, 9)
         for size in range(0, ms + 1):
             for cs in range(1, mc + 1):
                 for off in range(0, mo + 1):
